@@ -40,11 +40,10 @@ CFG = {
     "rule": RULE_SET + "; every case is one operand pair pushed through 4 operators x 6 forms (24 results dumped)",
     "targets": _T,
     "gaps": [
-        "every C02 theorem takes the bitset kernel facts as the named hypothesis K : BKernel (Lemmas/StoreOps.lean: op_bitmaps / per-bit array folds / to_array_store / to_bitmap_store specs, statements agreed with the core proof library, which proves them in parallel) - hence the _partial suffix",
-        "not yet proved: a |= b (len()-based operand swap + insert-or-merge loop), a |= &b, and therefore a | b, a | &b, &a | b; a &= b (containers.len() swap, matched rhs chunk moved out) and therefore a & b. Proved: all six forms of - and ^, &a | &b, &a & &b, a &= &b, a & &b, &a & b",
-        "forms-agree is stated on element lists (C02_sub_forms_agree_partial, C02_xor_forms_agree_partial); structural equality of the results additionally needs C04's canonical-form theorem (all results are proved well-formed)",
+        "every C02 theorem takes the bitset kernel facts as the named hypothesis K : BKernel (Lemmas/StoreOps.lean: op_bitmaps / per-bit array folds / to_array_store / to_bitmap_store specs, statements agreed with the core proof library, which proves them in parallel) - hence the _partial suffix; nothing else is missing: all 4 operators x 6 forms are proved exact (C02_all_forms_partial), each through its own code path",
+        "forms-agree is stated on element lists (C02_<op>_forms_agree_partial); structural equality of the results additionally needs C04's canonical-form theorem (all results are proved well-formed)",
         "'borrowed operands are left unchanged' is not a theorem of a functional model; it is checked by the harness (operand hashes after every borrowed form) on the sampled pairs only",
     ],
     "level_text": "Theorems (Lean 4, kernel-checked) that the model of |, &, -, ^ in each operand/assign form computes exactly the set union / intersection / difference / symmetric difference of the operands' element lists; the model (ops.rs Pairs loops, operand swaps, per-kind store dispatch, ensure_correct_store) is tied to the Rust source by running both on the same generated operand pairs in two build profiles, all 4 operators x 6 forms per pair, with the borrowed operands re-hashed after every borrowed form. Unbounded quantifier = theorem; tie = sampled.",
-    "level_note": "Trusted: Lean kernel; the hand-written model mirrors the code (checked by correspondence on generated pairs only); Spec.lean (sOr/sAnd/sSub/sXor with their membership laws) as the meaning of the set operations. 'Borrowed operands unchanged' is not a theorem of a functional model: it is what & guarantees in safe Rust, and is checked by the harness only on the sampled pairs. Theorems not yet lifted from the store/container level to the bitmap level are listed in evidence coverage.proof_gaps.",
+    "level_note": "Trusted: Lean kernel; the hand-written model mirrors the code (checked by correspondence on generated pairs only); Spec.lean (sOr/sAnd/sSub/sXor with their membership laws) as the meaning of the set operations. 'Borrowed operands unchanged' is not a theorem of a functional model: it is what & guarantees in safe Rust, and is checked by the harness only on the sampled pairs. The only assumed facts are the bitset kernel lemmas bundled in the named hypothesis BKernel (evidence coverage.proof_gaps).",
 }
